@@ -171,14 +171,12 @@ def build_apis(ctx, n_random):
     rl, hl = U.lro_metadata_ref_api()
     out.append({"name": "lro-metadata-ref", "req": rl, "transport": "grpc", "knobs": {"lro", "lro_metadata_ref"}, "e2e": True, "invalid": False, "first": hl})
     # a resource type declared twice (by a message and by a file-level definition), reached only by a resource reference.
-    # Arrangement b (file-level definition in the EARLIER file) is the input class of the finding SIG_RESDUP: it joins the
-    # run once the finding is registered; a (message first), c (one file), d (message + definition first, definition again) always run
-    for arr in ("a", "c", "d") + (("b",) if registered(SIG_RESDUP) else ()):
+    # Arrangement b (file-level definition in the EARLIER file) is the former witness of the finding SIG_RESDUP (repaired in /repo):
+    # a (message first), b, c (one file), d (message + definition first, definition again) always run
+    for arr in ("a", "b", "c", "d"):
         rt, ht = U.resource_twice_api(arr)
         out.append({"name": f"resource-twice-{arr}", "req": rt, "transport": "grpc", "knobs": {"resource_ref", "resource_declared_twice", f"resource_twice={arr}"},
                     "e2e": arr in ("a", "b") or ctx.tier != "quick", "invalid": False, "first": ht})
-    if not registered(SIG_RESDUP):
-        ctx.notes["resource_twice_b"] = f"not run: {SIG_RESDUP} is not listed in findings/known_findings.json yet (scratch/findings/C16-resource-declared-twice.json)"
     rp, hp = U.prefix_services_api()
     out.append({"name": "prefix-services", "req": rp, "transport": "grpc", "knobs": {"prefix_service"}, "e2e": True, "invalid": False, "first": hp})
     # dedicated APIs built on the shared random generator: the first valid candidate of a fixed rng sequence; a candidate
@@ -915,9 +913,9 @@ def run(ctx):
          f"set_eqb (allowed (allowlist gw {coq.slist(sel[0]['methods'])})) (allowed (allowlist wit_g (flat_map ls_methods wit_l)))"),
     ])
     ctx.oblige("example of C16_ex_enclosing_kept = the corpus API run on the implementation", not failing and not errors, "; ".join(failing + errors))
-    # the graphs of C16_ex_res_lookup_order / C16_resource_reference_keeps_message_refuted are the ones derived from
-    # c16_util.resource_twice_api: a (message first; run on the implementation above, T2) and b (file-level definition first;
-    # run on the implementation once its finding is registered, replayable from scratch/findings meanwhile)
+    # the graphs of C16_ex_res_lookup_order / C16_resource_reference_keeps_message_witness are the ones derived from
+    # c16_util.resource_twice_api: a (message first) and b (file-level definition first, the former witness of the repaired
+    # finding); both run on the implementation above (T2)
     shared, defs, checks = {}, [], []
     for arr, coqg in (("a", "[rt_res; rt_lib]"), ("b", "[rt_lib; rt_res]")):
         rq, ht = U.resource_twice_api(arr)
@@ -928,9 +926,9 @@ def run(ctx):
         checks.append((f"derived graph of resource_twice_api({arr!r}): allow-list of the Coq example",
                        f"is_built (build grt_{arr} {coq.s(ga['package'])} {U.settings_term([{'version': ga['package'], 'methods': ht[0]}])}) && "
                        f"set_eqb (allowed (allowlist grt_{arr} {coq.slist(ht[0])})) (allowed (allowlist {coqg} rt_sel)) && "
-                       f"{'negb ' if arr == 'b' else ''}(mem {coq.s(ga['package'] + '.Shelf')} (allowed (allowlist grt_{arr} {coq.slist(ht[0])})))"))
+                       f"(mem {coq.s(ga['package'] + '.Shelf')} (allowed (allowlist grt_{arr} {coq.slist(ht[0])})))"))
     failing, errors, _ = coq.eval_checks("c16rt", IMPORTS + "\nFrom GV Require Import Proofs.Selective.", U.COQ_DEFS + "\n".join(shared.values()) + "\n" + "\n".join(defs), checks)
-    ctx.oblige("examples C16_ex_res_lookup_order / C16_resource_reference_keeps_message_refuted = the graphs derived from resource_twice_api a / b",
+    ctx.oblige("examples C16_ex_res_lookup_order / C16_resource_reference_keeps_message_witness = the graphs derived from resource_twice_api a / b",
                not failing and not errors, "; ".join(failing + errors))
 
 
